@@ -717,8 +717,121 @@ def describe(tree):
 # ---------------------------------------------------------------------------------------------
 # replay / main
 # ---------------------------------------------------------------------------------------------
+# ---------------------------------------------------------------------------------------------
+# one sub-command CONFIGURATION OBJECT attached to several parent commands (a shared `list` / `show` sub-command)
+# ---------------------------------------------------------------------------------------------
+def shared_worlds():
+    """(parent profiles, kind of the shared sub-command, its profile): 2 or 3 parents, every profile vector, the parents with
+    index 1 aliased"""
+    for npar in (2, 3):
+        for pprof in itertools.product((0, 1), repeat=npar):
+            for kind in (PLAIN, ALIASED, DEFAULT):
+                for sprof in (0, 1):
+                    yield (tuple(pprof), kind, sprof)
+
+
+def build_shared(world):
+    from clikit import ConsoleApplication
+    from clikit.api.args.format import Argument
+    from clikit.api.config import ApplicationConfig, CommandConfig
+    from clikit.api.io import IO, Input, Output
+    from clikit.resolver import DefaultResolver
+
+    pprof, kind, sprof = world
+    cfg = ApplicationConfig("app")
+    cfg.set_catch_exceptions(False)
+    cfg.set_terminate_after_run(False)
+    cfg.set_command_resolver(DefaultResolver())
+    cfg.set_io_factory(lambda app, args, i, o, e: IO(Input(i), Output(o), Output(e)))
+    sub = CommandConfig("sh")
+    if kind == ALIASED:
+        sub.add_alias("sa")
+    if kind == DEFAULT:
+        sub.default()
+    if sprof:
+        sub.add_argument("xs", Argument.OPTIONAL)
+        sub.add_option("os", "w")
+    sub.set_handler(Rec("sh", []))
+    for i, prof in enumerate(pprof):
+        c = CommandConfig(NAMES[i])
+        if i == 1:
+            c.add_alias(ALIASES[i])
+        if prof:
+            c.add_argument(ARGS[i], Argument.OPTIONAL)
+            c.add_option(OPTS[i], SHORTS[i])
+        c.set_handler(Rec(i, []))
+        c.add_sub_command_config(sub)
+        cfg.add_command_config(c)
+    return ConsoleApplication(cfg)
+
+
+def shared_lines(world):
+    """-> [(tokens, expected full name, expected arguments(False))]: every parent by name (and alias) x {parent alone, sub-command
+    by name / alias} x as many words as the two argument slots take x {no option, the sub-command's option, a parent's option}"""
+    pprof, kind, sprof = world
+    out = []
+    for i, prof in enumerate(pprof):
+        for pw in [NAMES[i]] + ([ALIASES[i]] if i == 1 else []):
+            subs = [None, "sh"] + (["sa"] if kind == ALIASED else [])
+            for sw in subs:
+                into = sw is not None or kind == DEFAULT
+                slots = ([ARGS[i]] if prof else []) + (["xs"] if (into and sprof) else [])
+                for nwords in range(len(slots) + 1):
+                    words = ["v%d" % k for k in range(nwords)]
+                    opts = [[]] + ([["--os"]] if (into and sprof) else []) + ([["--" + OPTS[i]]] if prof else [])
+                    for o in opts:
+                        toks = [pw] + ([sw] if sw else []) + words + o
+                        name = NAMES[i] + (" sh" if into else "")
+                        out.append((toks, name, dict(zip(slots, words))))
+                        if words and not o:
+                            out.append(([pw] + ([sw] if sw else []) + words[:-1] + ["--", words[-1]], name, dict(zip(slots, words))))
+    return out
+
+
+def check_shared(world):
+    app = build_shared(world)
+    vs = []
+    n = 0
+    for toks, name, args in shared_lines(world):
+        n += 1
+        obs = observe(app, toks)
+        case = {"check": "shared", "world": [list(world[0]), world[1], world[2]], "tokens": toks}
+        what = "one sub-command configuration object under %d parents (profiles %r, sub-command %s/%s) | line %r" % (
+            len(world[0]), list(world[0]), KINDS[world[1]], "A" if world[2] else "N", " ".join(toks))
+        if obs[0] == "exc":
+            vs.append(report.viol("shared-config:selection:" + obs[1], "expected %r, raised %s: %s | %s" % (name, obs[1], obs[2], what),
+                                  case, name, "%s: %s" % (obs[1], obs[2])))
+        elif obs[1] != name:
+            vs.append(report.viol("shared-config:selection", "expected %r, selected %r | %s" % (name, obs[1], what), case, name, obs[1]))
+        else:
+            got = dict(obs[2].args.arguments(False))
+            if got != args:
+                vs.append(report.viol("shared-config:args", "selected %r but arguments differ | %s" % (name, what), case, args, got))
+        if len(vs) >= 5:
+            break
+    return n, vs
+
+
+def replay_shared(case):
+    world = (tuple(case["world"][0]), case["world"][1], case["world"][2])
+    app = build_shared(world)
+    for toks, name, args in shared_lines(world):
+        if toks == case["tokens"]:
+            obs = observe(app, toks)
+            if obs[0] == "exc":
+                return report.viol("shared-config:selection:" + obs[1], "expected %r, raised %s: %s" % (name, obs[1], obs[2]), case, name, repr(obs[2]))
+            if obs[1] != name:
+                return report.viol("shared-config:selection", "expected %r, selected %r" % (name, obs[1]), case, name, obs[1])
+            got = dict(obs[2].args.arguments(False))
+            if got != args:
+                return report.viol("shared-config:args", "selected %r but arguments differ" % name, case, args, got)
+    return None
+
+
 def replay(case):
     """Re-execute exactly the recorded line (and, for a metamorphic relation, its recorded simpler form)."""
+    if case.get("check") == "shared":
+        return replay_shared(case)
     tree = tuple(tuple(t) for t in case["tree"])
     line = tuple(tuple(x) for x in case["line"])
     m = Model(tree, case.get("unknown", UNKNOWN_WORDS[0]))
@@ -782,7 +895,18 @@ def main():
     ranked.sort(key=lambda rv: rv[0])
     for r, v in ranked:
         rep.violation(v)
-    rep.set("evaluations", tot.get("lines", 0) + tot.get("runs", 0))
+    sh_lines = 0
+    worlds = list(shared_worlds())
+    for w in worlds:
+        n, vs = check_shared(w)
+        sh_lines += n
+        for v in vs:
+            rep.violation(v)
+    rep.part("shared_sub_command_config", worlds=len(worlds), lines=sh_lines,
+             what="one CommandConfig object attached as sub-command to 2-3 parents (every profile vector; plain / aliased / default; "
+                  "with and without an argument + option of its own): every parent by name and alias x sub-command named or entered "
+                  "as default x words for the argument slots x options x '--' tail; selection and arguments known by construction")
+    rep.set("evaluations", tot.get("lines", 0) + tot.get("runs", 0) + sh_lines)
     rep.set("resolves", tot.get("lines", 0))
     rep.set("runs", tot.get("runs", 0))
     rep.set("trees", sum(d["trees"] for d in per_n.values()))
